@@ -1,7 +1,11 @@
-import SqlgrepModel.Model.Value
+import SqlgrepModel.Model.FloatArith
 /-
-REAL arithmetic. Bit patterns are `Nat` (< 2^64). `+ − × ÷ sqrt pow` are executed with Lean's `Float`
-(the same IEEE-754 hardware operations Rust uses); theorems treat them as uninterpreted.
+REAL arithmetic. Bit patterns are `Nat` (< 2^64). `+ − × ÷ sqrt` and `i64 as f64` are computed EXACTLY on the bit
+patterns (`Model/FloatArith.lean`: the correctly rounded result of the exact operation, as IEEE-754 demands) — the kernel
+can evaluate them and `Lemmas/FloatArith.lean` proves their laws. The hardware versions through Lean's opaque `Float`
+(`addHw` …) are kept for the drivers' cross-check only: on every case each REAL operation is also done by the
+hardware and a difference is reported (`fact-mismatch f64-arith`). `pow` (libm, not correctly rounded) is executed by
+the hardware `Float` and, in the end-to-end facts, shipped.
 `{:.2}` rendering and INT/REAL comparison are exact integer arithmetic on the bit pattern.
 -/
 namespace Sqlgrep
@@ -9,19 +13,27 @@ namespace F64
 
 def toFloat (bits : Nat) : Float := Float.ofBits (UInt64.ofNat bits)
 def ofFloat (f : Float) : Nat := f.toBits.toNat
-def canonNaN : Nat := 0x7ff8000000000000
 /-- results are reported with NaN payloads normalised (payloads are not observable in sqlgrep) -/
 def canon (bits : Nat) : Nat := if isNaN bits then canonNaN else bits
 
-def add (a b : Nat) : Nat := ofFloat (toFloat a + toFloat b)
-def sub (a b : Nat) : Nat := ofFloat (toFloat a - toFloat b)
-def mul (a b : Nat) : Nat := ofFloat (toFloat a * toFloat b)
-def div (a b : Nat) : Nat := ofFloat (toFloat a / toFloat b)
-def sqrt (a : Nat) : Nat := ofFloat (Float.sqrt (toFloat a))
-def pow (a b : Nat) : Nat := ofFloat (Float.pow (toFloat a) (toFloat b))
-def neg (a : Nat) : Nat := if a / 2^63 % 2 == 1 then a - 2^63 else a + 2^63   -- flips the sign bit
-def abs (a : Nat) : Nat := a % 2^63                                            -- clears the sign bit
-def ofInt (i : Int) : Nat := ofFloat (Float.ofInt i)                            -- `i as f64`
+/-! the hardware operations (cross-check only) -/
+def addHw (a b : Nat) : Nat := ofFloat (toFloat a + toFloat b)
+def subHw (a b : Nat) : Nat := ofFloat (toFloat a - toFloat b)
+def mulHw (a b : Nat) : Nat := ofFloat (toFloat a * toFloat b)
+def divHw (a b : Nat) : Nat := ofFloat (toFloat a / toFloat b)
+def sqrtHw (a : Nat) : Nat := ofFloat (Float.sqrt (toFloat a))
+def ofIntHw (i : Int) : Nat := ofFloat (Float.ofInt i)
+
+/-! the model's operations: exact (`Model/FloatArith.lean`) -/
+def add (a b : Nat) : Nat := addX a b
+def sub (a b : Nat) : Nat := subX a b
+def mul (a b : Nat) : Nat := mulX a b
+def div (a b : Nat) : Nat := divX a b
+def sqrt (a : Nat) : Nat := sqrtX a
+def pow (a b : Nat) : Nat := ofFloat (Float.pow (toFloat a) (toFloat b))      -- libm: stays outside
+def neg (a : Nat) : Nat := negX a                                              -- flips the sign bit
+def abs (a : Nat) : Nat := absX a                                              -- clears the sign bit
+def ofInt (i : Int) : Nat := ofIntX i                                          -- `i as f64`
 def zero : Nat := 0
 
 /-- `f64::max`/`f64::min` (Rust: if one operand is NaN the other is returned) -/
@@ -29,14 +41,6 @@ def fmax (a b : Nat) : Nat :=
   if isNaN a then b else if isNaN b then a else if key a < key b then b else a
 def fmin (a b : Nat) : Nat :=
   if isNaN a then b else if isNaN b then a else if key b < key a then b else a
-
-/-! exact decomposition of a finite pattern: value = (-1)^s · m · 2^e -/
-def expBits (n : Nat) : Nat := n / 2^52 % 2^11
-def fracBits (n : Nat) : Nat := n % 2^52
-def isInf (n : Nat) : Bool := mag n == 0x7ff0000000000000
-/-- integer mantissa and binary exponent of a finite pattern -/
-def mantExp (n : Nat) : Nat × Int :=
-  if expBits n == 0 then (fracBits n, -1074) else (2^52 + fracBits n, (expBits n : Int) - 1075)
 
 /-- exact comparison of an integer with a REAL (`compare_int_float`): NaN is greater than every number -/
 def cmpIntReal (x : Int) (y : Nat) : Ordering :=
